@@ -73,7 +73,6 @@ type closure struct {
 
 type bad struct{}
 
-
 // Hash functions and equivalence relation:
 
 // hashString computes the FNV hash of s.
@@ -178,7 +177,6 @@ func (x iface) eq(t types.Type, _y interface{}) bool {
 func (x iface) hash(outer types.Type) int {
 	return hashType(x.t)*8581 + hash(outer, x.t, x.v)
 }
-
 
 // equals returns true iff x and y are equal according to Go's
 // linguistic equivalence relation for type t.
@@ -366,4 +364,3 @@ func (it *stringIter) next() tuple {
 	it.i += n
 	return okv
 }
-
